@@ -24,12 +24,28 @@ PLUMBING = (
     ("pennylane/tape/tape.py", "_validate_computational_basis_sampling", "tape", "T"),
     ("pennylane/io/to_openqasm.py", "_tape_openqasm", "tape", "T"),
 )
-# named accepted sites (rule, function, normalised statement) -> reason; confirmed by reading and by a run-time probe
-ACCEPTED = {
-    ("CompilePipeline.__call_tapes", "tape.trainable_params = argnums[tape_idx]"):
-        "argnums come only from the cotransform cache of a QNode-bound pipeline; the tapes it receives are constructed by the workflow for "
-        "that very call (probed: pipelines handed to users carry no cache, and set_classical_component on a foreign pipeline raises before the store)",
-}
+# named accepted site -> reason; confirmed by reading and by a run-time probe.  Identified by construct, not by text:
+# in CompilePipeline.__call_tapes, the store to `.trainable_params` of a tape whose value is indexed out of a local that is
+# bound from `self.cotransform_cache.get_argnums(...)`.
+ACCEPTED_REASON = (
+    "argnums come only from the cotransform cache of a QNode-bound pipeline; the tapes it receives are constructed by the workflow for "
+    "that very call (probed: pipelines handed to users carry no cache, and set_classical_component on a foreign pipeline raises before the store)")
+
+
+def _accepted(f, qual, sink):
+    if qual != "CompilePipeline.__call_tapes" or sink.kind != "attr-store":
+        return None
+    st = sink.node
+    if not (isinstance(st, ast.Assign) and len(st.targets) == 1 and isinstance(st.targets[0], ast.Attribute) and st.targets[0].attr == "trainable_params"):
+        return None
+    v = st.value
+    if not (isinstance(v, ast.Subscript) and isinstance(v.value, ast.Name)):
+        return None
+    src = v.value.id
+    defs = [n.value for n in ast.walk(f.node) if isinstance(n, ast.Assign) and any(isinstance(t, ast.Name) and t.id == src for t in n.targets)]
+    if defs and all("cotransform_cache.get_argnums(" in norm(d) for d in defs):
+        return ACCEPTED_REASON
+    return None
 
 
 def _is_transform_ref(ix, module, e):
@@ -136,7 +152,7 @@ def check(ctx):
         res = eng.analyse(f, {pname: {T if tag == "T" else CT}})
         live = []
         for s in res.sinks:
-            reason = ACCEPTED.get((qual, norm(s.node)))
+            reason = _accepted(f, qual, s)
             if reason:
                 rep.exempt("R-C18-effect", f"{rel}:{qual} `{norm(s.node)}`", reason)
             else:
